@@ -43,9 +43,8 @@ Proof.
   unfold block_writes, d_block.
   destruct (h_height (sh_hdr sh) <=? d_height m);
     cbn [apply_writes fold_left apply_write apply_prim app kv_put kv_get];
-    rewrite ?block_key_height, ?block_key_eqb;
-    destruct (k =? h_height (sh_hdr sh)); try reflexivity;
-    rewrite ?block_key_state; reflexivity.
+    rewrite ?block_key_height, ?block_key_state, ?block_key_eqb;
+    destruct (k =? h_height (sh_hdr sh)); reflexivity.
 Qed.
 
 (* ---- lists ------------------------------------------------------------------------------------- *)
@@ -112,8 +111,8 @@ Section P.
     subst k'.
     split; [|split; [assumption|split; [assumption|]]].
     - unfold validate, validate_basic, validate_pair.
-      rewrite Hprop, Hsa, Hp, Hm, Hv. cbn [addr_eqb negb].
-      rewrite N.eqb_refl.
+      rewrite Hprop, Hsa, Hp, Hm, Hv. cbn [addr_eqb negb key_address].
+      rewrite !N.eqb_refl.
       destruct (sh_sig sh); try discriminate Hv.
       rewrite Hcm, commitment_eqb_refl.
       replace (h_chain (sh_hdr sh) =? m_chain m) with true by (symmetry; apply N.eqb_eq; congruence).
@@ -171,10 +170,20 @@ Section P.
   Qed.
 End P.
 
-Definition bad_crash_ws (ws : list wr) (q : nat) : bool :=
-  Nat.ltb q (length ws) && Nat.eqb (Nat.modulo q 3) 1.
+Lemma lookup_remove_other {A} (l : list (N * A)) n k : k <> n -> lookup (remove l n) k = lookup l k.
+Proof.
+  intros Hne. induction l as [|[a x] r IH]; cbn; [reflexivity|].
+  destruct (N.eqb_spec a n) as [->|Han]; cbn.
+  - destruct (N.eqb_spec n k); [congruence|exact IH].
+  - destruct (a =? k); [reflexivity|exact IH].
+Qed.
 
-(* ---- the safety invariant ------------------------------------------------------------------------ *)
+Lemma header_eqb_height a b : header_eqb a b = true -> h_height a = h_height b.
+Proof.
+  destruct a, b; cbn. intros H. repeat (apply andb_true_iff in H as [H _]). apply N.eqb_eq. exact H.
+Qed.
+
+(* ---- the invariants ------------------------------------------------------------------------------ *)
 Section Safety.
   Variable exec : root -> N -> Z -> list tx -> root.
   Variable g : config.
@@ -196,6 +205,22 @@ Section Safety.
                      st_ok g (state_after exec s0 C j) (g_initial g + N.of_nat j) t r.
   Proof. destruct HV as (_ & _ & Hc). intros H. exact (chain_nth exec g k _ _ _ _ _ _ _ _ Hc s0_ok H). Qed.
 
+  Lemma chain_block i sh d :
+    nth_error C i = Some (sh, d) ->
+    h_height (sh_hdr sh) = g_initial g + N.of_nat i /\ d_txs d = h_data (sh_hdr sh) /\
+    d_meta d = Some {| m_chain := h_chain (sh_hdr sh); m_height := h_height (sh_hdr sh); m_time := h_time (sh_hdr sh) |}.
+  Proof.
+    intros Hn. destruct (chain_at _ _ Hn) as (prev & t & r & Hok & Hst).
+    destruct (block_ok_validate exec g k _ _ _ _ _ _ _ Hok Hst) as (_ & H1 & H2 & H3). auto.
+  Qed.
+
+  Lemma empty_data_eq i sh d :
+    nth_error C i = Some (sh, d) -> d_txs d = [] -> empty_data (sh_hdr sh) = d.
+  Proof.
+    intros Hn He. destruct (chain_block _ _ _ Hn) as (_ & _ & Hm).
+    destruct d as [dm dt]; cbn in *. subst. reflexivity.
+  Qed.
+
   Definition core (m : img) (last : cstate) (j : nat) : Prop :=
     synced_to exec g C {| n_disk := m; n_last := last; n_cache := empty_cache; n_files := empty_cache;
                           n_status := Running; n_log := [] |} j.
@@ -203,12 +228,61 @@ Section Safety.
   Lemma synced_core nd j : synced_to exec g C nd j <-> core (n_disk nd) (n_last nd) j.
   Proof. unfold core, synced_to; cbn. tauto. Qed.
 
+  Lemma core_unique m s j s' j' : core m s j -> core m s' j' -> j = j'.
+  Proof.
+    intros (_ & H1 & _) (_ & H2 & _). cbn [n_disk] in *. pose proof init_pos. lia.
+  Qed.
+
   Definition cache_ok (c : cache) : Prop :=
     (forall n sh, In (n, sh) (c_hdrs c) -> exists i d, nth_error C i = Some (sh, d) /\ n = g_initial g + N.of_nat i) /\
     (forall n d, In (n, d) (c_data c) -> exists i sh, nth_error C i = Some (sh, d) /\ n = g_initial g + N.of_nat i).
 
   Lemma cache_ok_empty : cache_ok empty_cache.
   Proof. split; intros ? ? [].  Qed.
+
+  (* block i is applied, or its header / data sits in the cache at its height *)
+  Definition hv_h (c : cache) (j i : nat) (sh : sheader) : Prop :=
+    (i < j)%nat \/ lookup (c_hdrs c) (g_initial g + N.of_nat i) = Some sh.
+  Definition hv_d (c : cache) (j i : nat) (d : data) : Prop :=
+    (i < j)%nat \/ lookup (c_data c) (g_initial g + N.of_nat i) = Some d.
+
+  Definition keeps (c : cache) (j : nat) (c' : cache) (j' : nat) : Prop :=
+    forall i sh d, nth_error C i = Some (sh, d) ->
+      (hv_h c j i sh -> hv_h c' j' i sh) /\ (hv_d c j i d -> hv_d c' j' i d).
+
+  (* a hash marked as seen belongs to a block that is applied or cached *)
+  Definition seen_ok (c : cache) (j : nat) : Prop :=
+    (forall i sh d, nth_error C i = Some (sh, d) -> hseen c (sh_hdr sh) = true ->
+        hv_h c j i sh /\ (d_txs d = [] -> hv_d c j i d)) /\
+    (forall i sh d, nth_error C i = Some (sh, d) -> d_txs d <> [] -> dseen c (d_txs d) = true -> hv_d c j i d).
+
+  (* trySyncNextBlock has nothing to do *)
+  Definition fixp (c : cache) (m : img) : Prop :=
+    lookup (c_hdrs c) (d_height m + 1) = None \/ lookup (c_data c) (d_height m + 1) = None.
+
+  (* the guard of the completeness theorems: non-empty transaction lists are pairwise distinct *)
+  Definition Distinct : Prop :=
+    forall i i' b b', nth_error C i = Some b -> nth_error C i' = Some b' ->
+      d_txs (snd b) = d_txs (snd b') -> d_txs (snd b) <> [] -> i = i'.
+
+  Lemma keeps_refl c j : keeps c j c j.
+  Proof. intros i sh d _. split; auto. Qed.
+  Lemma keeps_trans c1 j1 c2 j2 c3 j3 : keeps c1 j1 c2 j2 -> keeps c2 j2 c3 j3 -> keeps c1 j1 c3 j3.
+  Proof. intros H1 H2 i sh d Hn. destruct (H1 _ _ _ Hn), (H2 _ _ _ Hn). split; auto. Qed.
+  Lemma keeps_mono c j j' : (j <= j')%nat -> keeps c j c j'.
+  Proof. intros Hle i sh d _. unfold hv_h, hv_d. split; intros [H|H]; auto; left; lia. Qed.
+
+  (* same seen sets: seen_ok follows the items *)
+  Lemma seen_ok_keeps c j c' j' :
+    c_hseen c' = c_hseen c -> c_dseen c' = c_dseen c -> keeps c j c' j' -> seen_ok c j -> seen_ok c' j'.
+  Proof.
+    intros E1 E2 Hk (S1 & S2). unfold seen_ok, hseen, dseen in *. rewrite E1, E2. split.
+    - intros i sh d Hn Hs. destruct (S1 _ _ _ Hn Hs) as (A & B). destruct (Hk _ _ _ Hn) as (K1 & K2).
+      split; auto.
+    - intros i sh d Hn Hne Hs. destruct (Hk _ _ _ Hn) as (_ & K2). apply K2. eapply S2; eauto.
+  Qed.
+  Lemma seen_ok_mono c j j' : (j <= j')%nat -> seen_ok c j -> seen_ok c j'.
+  Proof. intros Hle. apply seen_ok_keeps; auto. apply keeps_mono; exact Hle. Qed.
 
   (* what the cache holds at the next height is the next block of the chain *)
   Lemma next_block m last j c sh d :
@@ -253,8 +327,38 @@ Section Safety.
     intros (H1 & H2). split; cbn; intros ? ? Hin; apply remove_in in Hin; auto.
   Qed.
 
-  (* trySyncNextBlock keeps the invariant, never fails on chain items, never runs out of fuel, and
-     stops only when the header or the data of the next height is missing *)
+  (* one application: items at other heights stay, the seen marks it adds belong to the applied block *)
+  Lemma keeps_after c j sh : keeps c j (after_apply c (g_initial g + N.of_nat j) sh) (S j).
+  Proof.
+    intros i sh' d' Hn. unfold hv_h, hv_d; cbn [after_apply c_hdrs c_data].
+    destruct (Nat.eq_dec i j) as [->|Hne].
+    - split; intros _; left; lia.
+    - split; (intros [H|H]; [left; lia|right; rewrite lookup_remove_other by lia; exact H]).
+  Qed.
+
+  Lemma seen_ok_after c j sh d :
+    Distinct -> nth_error C j = Some (sh, d) -> seen_ok c j ->
+    seen_ok (after_apply c (g_initial g + N.of_nat j) sh) (S j).
+  Proof.
+    intros HD Hn (S1 & S2). pose proof (keeps_after c j sh) as Hk.
+    destruct (chain_block _ _ _ Hn) as (Hhj & Htj & _). split.
+    - intros i sh' d' Hn' Hs. destruct (Hk _ _ _ Hn') as (K1 & K2).
+      unfold hseen in Hs. cbn [after_apply c_hseen existsb] in Hs. apply orb_true_iff in Hs as [Hs|Hs].
+      + apply header_eqb_height in Hs. destruct (chain_block _ _ _ Hn') as (Hhi & _).
+        assert (i = j) by lia. subst i. split; [left; lia|intros _; left; lia].
+      + destruct (S1 _ _ _ Hn' Hs) as (A & B). split; auto.
+    - intros i sh' d' Hn' Hne Hs. destruct (Hk _ _ _ Hn') as (_ & K2).
+      unfold dseen in Hs. cbn [after_apply c_dseen] in Hs.
+      destruct (is_empty_commitment (h_data (sh_hdr sh))).
+      + apply K2. eapply S2; eauto.
+      + cbn [existsb] in Hs. apply orb_true_iff in Hs as [Hs|Hs].
+        * apply commitment_eqb_eq in Hs. rewrite <- Htj in Hs.
+          assert (i = j) by (apply (HD i j (sh', d') (sh, d)); auto). subst. left; lia.
+        * apply K2. eapply S2; eauto.
+  Qed.
+
+  (* trySyncNextBlock keeps the invariant, never fails on chain items, never runs out of fuel, stops
+     only when the header or the data of the next height is missing, and loses no cached item *)
   Lemma try_sync_inv fuel : forall st j,
     core (l_disk st) (l_last st) j -> cache_ok (l_cache st) ->
     l_status st = Running ->
@@ -265,495 +369,43 @@ Section Safety.
       (forall L, l_log st = L ++ calls_after exec s0 C j ->
                  l_log (try_sync exec fuel st) = L ++ calls_after exec s0 C j') /\
       l_status (try_sync exec fuel st) = Running /\
-      (lookup (c_hdrs (l_cache (try_sync exec fuel st))) (d_height (l_disk (try_sync exec fuel st)) + 1) = None \/
-       lookup (c_data (l_cache (try_sync exec fuel st))) (d_height (l_disk (try_sync exec fuel st)) + 1) = None).
+      fixp (l_cache (try_sync exec fuel st)) (l_disk (try_sync exec fuel st)) /\
+      keeps (l_cache st) j (l_cache (try_sync exec fuel st)) j' /\
+      (Distinct -> seen_ok (l_cache st) j -> seen_ok (l_cache (try_sync exec fuel st)) j').
   Proof.
     induction fuel as [|f IH]; intros st j Hcore Hc Hst Hfuel; [lia|].
     cbn [try_sync].
+    assert (Hstop : fixp (l_cache st) (l_disk st) ->
+      exists j', (j <= j')%nat /\ core (l_disk st) (l_last st) j' /\ cache_ok (l_cache st) /\
+        (forall L, l_log st = L ++ calls_after exec s0 C j -> l_log st = L ++ calls_after exec s0 C j') /\
+        l_status st = Running /\ fixp (l_cache st) (l_disk st) /\ keeps (l_cache st) j (l_cache st) j' /\
+        (Distinct -> seen_ok (l_cache st) j -> seen_ok (l_cache st) j')).
+    { intros Hf. exists j. split; [lia|]. split; [exact Hcore|]. split; [exact Hc|]. split; [auto|].
+      split; [exact Hst|]. split; [exact Hf|]. split; [apply keeps_refl|auto]. }
     destruct (lookup (c_hdrs (l_cache st)) (d_height (l_disk st) + 1)) as [sh|] eqn:L1;
-      [|exists j; split; [lia|]; split; [exact Hcore|]; split; [exact Hc|]; split; [intros L HL; exact HL|];
-        split; [exact Hst|left; exact L1]].
+      [|apply Hstop; left; exact L1].
     destruct (lookup (c_data (l_cache st)) (d_height (l_disk st) + 1)) as [d|] eqn:L2;
-      [|exists j; split; [lia|]; split; [exact Hcore|]; split; [exact Hc|]; split; [intros L HL; exact HL|];
-        split; [exact Hst|right; exact L2]].
+      [|apply Hstop; right; exact L2].
+    clear Hstop.
     pose proof (next_block _ _ _ _ _ _ Hcore Hc L1 L2) as Hn.
     destruct (core_step _ _ _ _ _ Hcore Hn) as (Hval & Hcore').
     rewrite Hval.
     unfold next_of in Hcore'; cbn [fst snd] in Hcore'.
+    assert (Hnext : d_height (l_disk st) + 1 = g_initial g + N.of_nat j).
+    { destruct Hcore as (_ & Hh & _). cbn [n_disk] in Hh. pose proof init_pos. lia. }
+    rewrite Hnext in *.
     match goal with |- context [try_sync exec f ?st'] =>
-      destruct (IH st' (S j)) as (j' & Hle & R1 & R2 & R3 & R4) end.
+      destruct (IH st' (S j)) as (j' & Hle & R1 & R2 & R3 & R4 & R5 & R6 & R7) end.
     - exact Hcore'.
     - cbn. apply cache_ok_after; exact Hc.
     - reflexivity.
     - cbn. pose proof (remove_shrinks _ _ _ L1). lia.
-    - exists j'. split; [lia|]. split; [exact R1|]. split; [exact R2|]. split; [|exact R4].
-      intros L Hlog. apply R3. cbn [l_log].
-      rewrite Hlog, (calls_after_S exec _ _ _ _ Hn), app_assoc. cbn [fst snd].
-      destruct Hcore as (_ & _ & _ & Hl & _). cbn in Hl. rewrite Hl. reflexivity.
-  Qed.
-
-  (* ---- node level ------------------------------------------------------------------------------ *)
-  Definition Inv (nd : node) (j : nat) : Prop :=
-    n_status nd = Running /\ core (n_disk nd) (n_last nd) j /\ cache_ok (n_cache nd) /\ cache_ok (n_files nd).
-
-  Lemma chain_block i sh d :
-    nth_error C i = Some (sh, d) ->
-    h_height (sh_hdr sh) = g_initial g + N.of_nat i /\ d_txs d = h_data (sh_hdr sh) /\
-    d_meta d = Some {| m_chain := h_chain (sh_hdr sh); m_height := h_height (sh_hdr sh); m_time := h_time (sh_hdr sh) |}.
-  Proof.
-    intros Hn. destruct (chain_at _ _ Hn) as (prev & t & r & Hok & Hst).
-    destruct (block_ok_validate exec g k _ _ _ _ _ _ _ Hok Hst) as (_ & H1 & H2 & H3). auto.
-  Qed.
-
-  Lemma loop_inv nd j c mark :
-    Inv nd j -> cache_ok c ->
-    (forall c', c_hdrs (mark c') = c_hdrs c' /\ c_data (mark c') = c_data c') ->
-    exists j', (j <= j')%nat /\ Inv (fst (finish nd (start_loop exec nd c) mark)) j' /\
-               (forall L, n_log nd = L ++ calls_after exec s0 C j ->
-                  n_log (fst (finish nd (start_loop exec nd c) mark)) = L ++ calls_after exec s0 C j').
-  Proof.
-    intros (Hst & Hcore & Hc & Hf) Hc' Hmark.
-    unfold start_loop.
-    match goal with |- context [try_sync exec ?f ?st] =>
-      destruct (try_sync_inv f st j) as (j' & Hle & Hcore' & Hcc & Hlog' & Hst' & _); auto;
-      set (R := try_sync exec f st) in * end.
-    exists j'. split; [exact Hle|]. unfold finish; cbn [fst n_status n_disk n_last n_cache n_files n_log].
-    rewrite Hst'. split; [|exact Hlog'].
-    split; [reflexivity|]. split; [exact Hcore'|]. split; [|exact Hf].
-    destruct Hcc as (H1 & H2). destruct (Hmark (l_cache R)) as (E1 & E2).
-    unfold cache_ok; cbn [n_cache]. rewrite E1, E2. split; assumption.
-  Qed.
-
-  Lemma process_inv nd j e :
-    Inv nd j -> ev_in C e ->
-    exists j', (j <= j')%nat /\ Inv (fst (process exec nd e)) j' /\
-               (forall L, n_log nd = L ++ calls_after exec s0 C j ->
-                  n_log (fst (process exec nd e)) = L ++ calls_after exec s0 C j').
-  Proof.
-    intros HI Hev. pose proof HI as (Hst & Hcore & Hc & Hf).
-    unfold process. rewrite Hst.
-    destruct e as [sh da | d da].
-    - destruct Hev as (d & Hin). apply In_nth_error in Hin as (i & Hn).
-      destruct (chain_block _ _ _ Hn) as (Hh & Htx & Hm).
-      unfold on_header.
-      destruct ((h_height (sh_hdr sh) <=? d_height (n_disk nd)) || hseen (n_cache nd) (sh_hdr sh));
-        [exists j; cbn [fst]; auto|].
-      apply loop_inv; [exact HI| |intros c'; split; reflexivity].
-      destruct Hc as (H1 & H2).
-        assert (Hd : is_empty_commitment (h_data (sh_hdr sh)) = true -> empty_data (sh_hdr sh) = d).
-        { intros He. destruct (h_data (sh_hdr sh)); [|discriminate He].
-          destruct d as [dm dt]; cbn in *. subst. reflexivity. }
-        destruct (is_empty_commitment (h_data (sh_hdr sh))) eqn:He; split; cbn; intros n x Hin'.
-        * destruct Hin' as [E|Hin']; [inversion E; subst; eauto|eauto].
-        * destruct Hin' as [E|Hin']; [|eauto]. inversion E; subst. exists i, sh. rewrite (Hd eq_refl). auto.
-        * destruct Hin' as [E|Hin']; [inversion E; subst; eauto|eauto].
-        * eauto.
-    - destruct Hev as (sh & Hin). apply In_nth_error in Hin as (i & Hn).
-      destruct (chain_block _ _ _ Hn) as (Hh & Htx & Hm).
-      unfold on_data. rewrite Hm.
-      destruct (d_txs d) eqn:Ht; [exists j; cbn [fst]; auto|]. rewrite <- Ht.
-      destruct (dseen (n_cache nd) (d_txs d)); [exists j; cbn [fst]; auto|].
-      cbn [m_height].
-      destruct (h_height (sh_hdr sh) <=? d_height (n_disk nd)); [exists j; cbn [fst]; auto|].
-      apply loop_inv; [exact HI| |intros c'; split; reflexivity].
-      destruct Hc as (H1 & H2). split; cbn; intros n x Hin'; [eauto|].
-      destruct Hin' as [E|Hin']; [inversion E; subst; eauto|eauto].
-  Qed.
-
-  Lemma last_height m last j :
-    core m last j -> j <> O -> s_height last = g_initial g + N.of_nat j - 1.
-  Proof.
-    intros (Hj & _ & _ & Hl & _) Hne. cbn [n_last] in Hl. destruct j as [|j0]; [congruence|].
-    assert (Hlt : (j0 < length C)%nat) by lia.
-    apply nth_error_Some in Hlt. destruct (nth_error C j0) as [[sh d]|] eqn:Hn; [|congruence].
-    rewrite (state_after_S exec _ _ _ _ Hn) in Hl. subst last.
-    destruct (chain_block _ _ _ Hn) as (Hh & _). unfold next_of, next_state; cbn. lia.
-  Qed.
-
-  Lemma height_put_block m n v : d_height (kv_put m (block_key n) v) = d_height m.
-  Proof. reflexivity. Qed.
-  Lemma state_put_block m n v : d_state (kv_put m (block_key n) v) = d_state m.
-  Proof. reflexivity. Qed.
-
-  (* a start on an image that holds exactly j applied blocks *)
-  Lemma boot_inv m last j files log :
-    core m last j -> cache_ok files ->
-    Inv (boot g m files log) j /\ n_log (boot g m files log) = log.
-  Proof.
-    intros Hcore Hf. pose proof Hcore as (Hj & Hh & Hb & Hl & Hs & Hs0). cbn [n_disk n_last] in *.
-    pose proof init_pos as Hi. unfold boot, boot_writes.
-    destruct j as [|j0].
-    - rewrite (Hs0 eq_refl). cbn [genesis_state s_height].
-      replace (g_initial g - 1 <=? d_height m) with true by (symmetry; apply N.leb_le; lia).
-      cbn [app apply_writes fold_left apply_write apply_prim n_log]. split; [|reflexivity].
-      split; [reflexivity|]. split; [|split; assumption].
-      unfold core, synced_to; cbn [n_disk n_last].
-      rewrite height_put_block, state_put_block.
-      repeat split; auto; try lia; try (intros i Hlt; lia); try (destruct C; reflexivity).
-    - rewrite (Hs ltac:(discriminate)).
-      pose proof (last_height _ _ _ Hcore ltac:(discriminate)) as Hlh.
-      replace (s_height last <? g_initial g) with false by (symmetry; apply N.ltb_ge; lia).
-      replace (s_height last <=? d_height m) with true by (symmetry; apply N.leb_le; lia).
-      cbn [apply_writes fold_left n_log]. split; [|reflexivity].
-      split; [reflexivity|]. split; [exact Hcore|split; assumption].
-  Qed.
-
-  Lemma init_inv : Inv (init g) O /\ n_log (init g) = [].
-  Proof.
-    pose proof init_pos as Hi. unfold init, boot, boot_writes. cbn [d_state kv_get genesis_state s_height d_height].
-    split; [|destruct (g_initial g - 1 <=? 0); reflexivity].
-    assert (Hc : core (n_disk (boot g [] empty_cache [])) s0 O).
-    { unfold boot, boot_writes. cbn [d_state kv_get genesis_state s_height d_height].
-      unfold core, synced_to.
-      destruct (N.leb_spec (g_initial g - 1) 0); cbn; repeat split; auto; try lia; try (intros i Hlt; lia); try (destruct C; reflexivity). }
-    unfold boot, boot_writes in Hc. cbn [d_state kv_get genesis_state s_height d_height] in Hc.
-    destruct (g_initial g - 1 <=? 0); (split; [reflexivity|split; [exact Hc|split; apply cache_ok_empty]]).
-  Qed.
-
-  (* clean histories: events of the chain and clean restarts *)
-  Lemma step_clean_inv nd j i L :
-    Inv nd j -> item_in C i -> is_clean i = true -> n_log nd = L ++ calls_after exec s0 C j ->
-    exists j', (j <= j')%nat /\ Inv (step exec g nd i) j' /\ n_log (step exec g nd i) = L ++ calls_after exec s0 C j'.
-  Proof.
-    intros HI Hin Hcl Hlog. destruct i as [e| |e q|q]; try discriminate Hcl.
-    - destruct (process_inv nd j e HI Hin) as (j' & Hle & HI' & Hl'). exists j'. auto.
-    - destruct HI as (Hst & Hcore & Hc & Hf). cbn [step]. rewrite Hst.
-      destruct (boot_inv _ _ _ (n_cache nd) (n_log nd) Hcore Hc) as (HI' & Hl').
-      exists j. split; [lia|]. split; [exact HI'|]. rewrite Hl'. exact Hlog.
-  Qed.
-
-  Lemma run_clean_inv h : forall nd j L,
-    Inv nd j -> Forall (item_in C) h -> forallb is_clean h = true -> n_log nd = L ++ calls_after exec s0 C j ->
-    exists j', (j <= j')%nat /\ Inv (run_from exec g nd h) j' /\ n_log (run_from exec g nd h) = L ++ calls_after exec s0 C j'.
-  Proof.
-    induction h as [|i r IH]; intros nd j L HI Hall Hcl Hlog.
-    - exists j. cbn. auto.
-    - inversion Hall as [|? ? Hi Hr]; subst. cbn [forallb] in Hcl. apply andb_true_iff in Hcl as [Hc1 Hc2].
-      destruct (step_clean_inv _ _ _ _ HI Hi Hc1 Hlog) as (j1 & Hle1 & HI1 & Hlog1).
-      destruct (IH _ _ _ HI1 Hr Hc2 Hlog1) as (j2 & Hle2 & HI2 & Hlog2).
-      exists j2. cbn [run_from fold_left]. split; [lia|]. split; assumption.
-  Qed.
-
-  (* ---- crashes (C05) ------------------------------------------------------------------------------ *)
-  (* an image from which every start yields a node that holds a prefix of the chain *)
-  Definition bootable (m : img) : Prop :=
-    forall files log, cache_ok files -> exists j, Inv (boot g m files log) j.
-
-  Lemma core_bootable m last j : core m last j -> bootable m.
-  Proof. intros Hc files log Hf. exists j. apply (boot_inv _ _ _ files log Hc Hf). Qed.
-
-  Lemma block_writes_eq m last j sh d new :
-    core m last j -> nth_error C j = Some (sh, d) ->
-    block_writes m new sh d =
-    [ W1 (Put state_key (VState new)); WBatch [Put (block_key (h_height (sh_hdr sh))) (VBlock sh d)];
-      W1 (Put height_key (VHeight (h_height (sh_hdr sh)))) ].
-  Proof.
-    intros (_ & Hh & _) Hn. cbn [n_disk] in Hh. pose proof init_pos.
-    destruct (chain_block _ _ _ Hn) as (Hhh & _).
-    unfold block_writes.
-    replace (h_height (sh_hdr sh) <=? d_height m) with false by (symmetry; apply N.leb_gt; lia).
-    reflexivity.
-  Qed.
-
-  (* state and block of the next application written, height not yet: start-up completes it *)
-  Lemma mid_bootable m last j sh d :
-    core m last j -> nth_error C j = Some (sh, d) ->
-    bootable (apply_writes m [ W1 (Put state_key (VState (next_of exec last (sh, d))));
-                               WBatch [Put (block_key (h_height (sh_hdr sh))) (VBlock sh d)] ]).
-  Proof.
-    intros Hc Hn files log Hf.
-    destruct (core_step _ _ _ _ _ Hc Hn) as (_ & Hc').
-    remember (next_of exec last (sh, d)) as new eqn:Hnew.
-    rewrite (block_writes_eq _ _ _ _ _ new Hc Hn) in Hc'.
-    pose proof (last_height _ _ _ Hc' ltac:(discriminate)) as Hlh.
-    destruct Hc as (_ & Hh & _). cbn [n_disk] in Hh. pose proof init_pos.
-    exists (S j).
-    cbn [apply_writes fold_left apply_write apply_prim] in *.
-    set (m' := kv_put (kv_put m state_key (VState new)) (block_key (h_height (sh_hdr sh))) (VBlock sh d)) in *.
-    assert (Hs' : d_state m' = Some new) by reflexivity.
-    assert (Hh' : d_height m' = d_height m) by reflexivity.
-    assert (Hsh : s_height new = h_height (sh_hdr sh)) by (subst new; reflexivity).
-    unfold boot, boot_writes. rewrite Hs', Hh'.
-    replace (s_height new <? g_initial g) with false by (symmetry; apply N.ltb_ge; lia).
-    replace (s_height new <=? d_height m) with false by (symmetry; apply N.leb_gt; lia).
-    rewrite Hsh. cbn [apply_writes fold_left apply_write apply_prim].
-    split; [reflexivity|]. split; [exact Hc'|]. split; assumption.
-  Qed.
-
-  Definition crash_ok (q n : nat) : Prop := (n <= q)%nat \/ Nat.modulo q 3 <> 1%nat.
-
-  Lemma try_sync_crash fuel : forall st j W,
-    core (l_disk st) (l_last st) j -> cache_ok (l_cache st) -> l_status st = Running ->
-    (length (c_hdrs (l_cache st)) < fuel)%nat -> l_ws st = W ->
-    exists ws, l_ws (try_sync exec fuel st) = W ++ ws /\
-      forall q, crash_ok q (length ws) -> bootable (crash_after q (l_disk st) ws).
-  Proof.
-    induction fuel as [|f IH]; intros st j W Hcore Hc Hst Hfuel HW; [lia|].
-    cbn [try_sync].
-    assert (Hnone : exists ws, l_ws st = W ++ ws /\
-              forall q, crash_ok q (length ws) -> bootable (crash_after q (l_disk st) ws)).
-    { exists []. rewrite app_nil_r. split; [exact HW|]. intros q _. unfold crash_after.
-      rewrite firstn_nil. cbn. eapply core_bootable; exact Hcore. }
-    destruct (lookup (c_hdrs (l_cache st)) (d_height (l_disk st) + 1)) as [sh|] eqn:L1; [|exact Hnone].
-    destruct (lookup (c_data (l_cache st)) (d_height (l_disk st) + 1)) as [d|] eqn:L2; [|exact Hnone].
-    clear Hnone.
-    pose proof (next_block _ _ _ _ _ _ Hcore Hc L1 L2) as Hn.
-    destruct (core_step _ _ _ _ _ Hcore Hn) as (Hval & Hcore').
-    rewrite Hval.
-    unfold next_of in Hcore'; cbn [fst snd] in Hcore'.
-    set (new := next_state (l_last st) (sh_hdr sh)
-                  (exec (s_app (l_last st)) (h_height (sh_hdr sh)) (h_time (sh_hdr sh)) (d_txs d))) in *.
-    pose proof (block_writes_eq _ _ _ _ _ new Hcore Hn) as Hbw.
-    match goal with |- context [try_sync exec f ?st'] =>
-      destruct (IH st' (S j) (W ++ block_writes (l_disk st) new sh d)) as (ws' & Hws' & Hboot') end.
-    - exact Hcore'.
-    - cbn. apply cache_ok_after; exact Hc.
-    - reflexivity.
-    - cbn. pose proof (remove_shrinks _ _ _ L1). lia.
-    - cbn. rewrite HW. reflexivity.
-    - exists (block_writes (l_disk st) new sh d ++ ws'). split; [rewrite Hws', app_assoc; reflexivity|].
-      cbn [l_disk] in Hboot'. rewrite Hbw in *.
-      intros q Hq. unfold crash_after.
-      destruct q as [|[|[|q]]].
-      + cbn. eapply core_bootable; exact Hcore.
-      + exfalso. destruct Hq as [Hq|Hq]; [cbn in Hq; lia|apply Hq; reflexivity].
-      + cbn [firstn app]. apply (mid_bootable _ _ _ _ _ Hcore Hn).
-      + assert (Hq' : crash_ok q (length ws')).
-        { destruct Hq as [Hq|Hq]; [left; cbn [length app] in Hq; lia|right].
-          intros E. apply Hq. replace (S (S (S q))) with (q + 1 * 3)%nat by lia.
-          rewrite Nat.mod_add by lia. exact E. }
-        specialize (Hboot' q Hq'). unfold crash_after in Hboot'. cbn [firstn app]. exact Hboot'.
-  Qed.
-
-  Lemma boot_ws_bootable m last j q : core m last j -> bootable (crash_after q m (boot_ws g m)).
-  Proof.
-    intros Hcore. pose proof Hcore as (Hj & Hh & Hb & Hl & Hs & Hs0). cbn [n_disk n_last] in *.
-    pose proof init_pos as Hi. unfold boot_ws, boot_writes, crash_after.
-    destruct j as [|j0].
-    - rewrite (Hs0 eq_refl). cbn [genesis_state s_height].
-      replace (g_initial g - 1 <=? d_height m) with true by (symmetry; apply N.leb_le; lia).
-      destruct q as [|q]; [cbn; eapply core_bootable; exact Hcore|].
-      cbn [app firstn]. rewrite firstn_nil.
-      cbn [apply_writes fold_left apply_write apply_prim].
-      apply (core_bootable _ last O).
-      unfold core, synced_to; cbn [n_disk n_last].
-      rewrite height_put_block, state_put_block.
-      repeat split; auto; try lia; try (intros i Hlt; lia).
-    - rewrite (Hs ltac:(discriminate)).
-      pose proof (last_height _ _ _ Hcore ltac:(discriminate)) as Hlh.
-      replace (s_height last <? g_initial g) with false by (symmetry; apply N.ltb_ge; lia).
-      replace (s_height last <=? d_height m) with true by (symmetry; apply N.leb_le; lia).
-      rewrite firstn_nil. cbn. eapply core_bootable; exact Hcore.
-  Qed.
-
-  (* the writes of one event, cut anywhere but between a state write and its block save *)
-  Lemma process_crash nd j e q :
-    Inv nd j -> ev_in C e -> bad_crash exec nd e q = false ->
-    bootable (crash_after q (n_disk nd) (snd (process exec nd e))).
-  Proof.
-    intros HI Hev Hbad. pose proof HI as (Hst & Hcore & Hc & Hf).
-    assert (Hskip : forall ws, ws = [] -> bootable (crash_after q (n_disk nd) ws)).
-    { intros ws ->. unfold crash_after. rewrite firstn_nil. cbn. eapply core_bootable; exact Hcore. }
-    assert (Hloop : forall c mark, cache_ok c ->
-              bad_crash_ws (snd (finish nd (start_loop exec nd c) mark)) q = false ->
-              bootable (crash_after q (n_disk nd) (snd (finish nd (start_loop exec nd c) mark)))).
-    { intros c mark Hc' Hb. unfold finish, start_loop in *. cbn [snd] in *.
-      match goal with |- context [try_sync exec ?f ?st] =>
-        destruct (try_sync_crash f st j []) as (ws & Hws & Hboot); auto end.
-      cbn [app] in Hws. rewrite Hws in *. apply Hboot.
-      unfold bad_crash_ws in Hb. unfold crash_ok.
-      destruct (Nat.ltb_spec q (length ws)); [right|left; lia].
-      cbn [andb] in Hb. intros E. rewrite E in Hb. discriminate Hb. }
-    change (bad_crash_ws (snd (process exec nd e)) q = false) in Hbad.
-    revert Hbad. unfold process. rewrite Hst.
-    destruct e as [sh da | d da].
-    - destruct Hev as (d & Hin). apply In_nth_error in Hin as (i & Hn).
-      destruct (chain_block _ _ _ Hn) as (Hh & Htx & Hm).
-      unfold on_header.
-      destruct ((h_height (sh_hdr sh) <=? d_height (n_disk nd)) || hseen (n_cache nd) (sh_hdr sh));
-        [intros _; apply Hskip; reflexivity|].
-      apply Hloop.
-      destruct Hc as (H1 & H2).
-      assert (Hd : is_empty_commitment (h_data (sh_hdr sh)) = true -> empty_data (sh_hdr sh) = d).
-      { intros He. destruct (h_data (sh_hdr sh)); [|discriminate He].
-        destruct d as [dm dt]; cbn in *. subst. reflexivity. }
-      destruct (is_empty_commitment (h_data (sh_hdr sh))) eqn:He; split; cbn; intros n x Hin'.
-      * destruct Hin' as [E|Hin']; [inversion E; subst; eauto|eauto].
-      * destruct Hin' as [E|Hin']; [|eauto]. inversion E; subst. exists i, sh. rewrite (Hd eq_refl). auto.
-      * destruct Hin' as [E|Hin']; [inversion E; subst; eauto|eauto].
-      * eauto.
-    - destruct Hev as (sh & Hin). apply In_nth_error in Hin as (i & Hn).
-      destruct (chain_block _ _ _ Hn) as (Hh & Htx & Hm).
-      unfold on_data. rewrite Hm.
-      destruct (d_txs d) eqn:Ht; [intros _; apply Hskip; reflexivity|]. rewrite <- Ht.
-      destruct (dseen (n_cache nd) (d_txs d)); [intros _; apply Hskip; reflexivity|].
-      cbn [m_height].
-      destruct (h_height (sh_hdr sh) <=? d_height (n_disk nd)); [intros _; apply Hskip; reflexivity|].
-      apply Hloop.
-      destruct Hc as (H1 & H2). split; cbn; intros n x Hin'; [eauto|].
-      destruct Hin' as [E|Hin']; [inversion E; subst; eauto|eauto].
-  Qed.
-
-  Lemma step_inv nd j i :
-    Inv nd j -> item_in C i ->
-    match i with ICrash e q => bad_crash exec nd e q = false | _ => True end ->
-    exists j', Inv (step exec g nd i) j'.
-  Proof.
-    intros HI Hin Hg. pose proof HI as (Hst & Hcore & Hc & Hf).
-    destruct i as [e| |e q|q].
-    - destruct (process_inv nd j e HI Hin) as (j' & _ & HI' & _). exists j'; exact HI'.
-    - cbn [step]. rewrite Hst. exists j. apply (boot_inv _ _ _ (n_cache nd) (n_log nd) Hcore Hc).
-    - cbn [step]. destruct (process exec nd e) as (nd', ws) eqn:Hp.
-      pose proof (process_crash nd j e q HI Hin Hg) as Hb. rewrite Hp in Hb. cbn [snd] in Hb.
-      apply Hb. exact Hf.
-    - cbn [step]. apply (boot_ws_bootable _ _ _ q Hcore). exact Hf.
-  Qed.
-
-  Lemma run_inv h : forall nd j,
-    Inv nd j -> Forall (item_in C) h -> no_bad_crash exec g nd h = true ->
-    exists j', Inv (run_from exec g nd h) j'.
-  Proof.
-    induction h as [|i r IH]; intros nd j HI Hall Hg.
-    - exists j. exact HI.
-    - inversion Hall as [|? ? Hi Hr]; subst. cbn [no_bad_crash] in Hg.
-      apply andb_true_iff in Hg as [Hg1 Hg2].
-      destruct (step_inv nd j i HI Hi) as (j1 & HI1).
-      { destruct i; try exact I. apply negb_true_iff. exact Hg1. }
-      destruct (IH _ _ HI1 Hr Hg2) as (j2 & HI2). exists j2. exact HI2.
+    - cbn [l_cache l_log] in *.
+      exists j'. split; [lia|]. split; [exact R1|]. split; [exact R2|]. split; [|split; [exact R4|split; [exact R5|split]]].
+      + intros L Hlog. apply R3.
+        rewrite Hlog, (calls_after_S exec _ _ _ _ Hn), app_assoc. cbn [fst snd].
+        destruct Hcore as (_ & _ & _ & Hl & _). cbn in Hl. rewrite Hl. reflexivity.
+      + eapply keeps_trans; [apply keeps_after|exact R6].
+      + intros HD Hs. apply R7; [exact HD|]. eapply seen_ok_after; eauto.
   Qed.
 End Safety.
-
-(* ---- C02: safety and monotonicity, all chains, all clean histories ------------------------------- *)
-Theorem safety exec g k C h :
-  ChainValid exec g k C -> Forall (item_in C) h -> forallb is_clean h = true ->
-  n_status (run exec g h) = Running /\
-  exists j, synced_to exec g C (run exec g h) j /\
-            n_log (run exec g h) = calls_after exec (genesis_state g) C j.
-Proof.
-  intros HV Hall Hcl. destruct (init_inv exec g k C HV) as (HI & Hl).
-  destruct (run_clean_inv exec g k C HV h (init g) O [] HI Hall Hcl) as (j & _ & (Hst & Hcore & _) & Hlog).
-  - rewrite Hl. destruct C; reflexivity.
-  - split; [exact Hst|]. exists j. split; [apply (synced_core exec g C); exact Hcore|exact Hlog].
-Qed.
-
-Theorem monotone exec g k C h1 h2 :
-  ChainValid exec g k C -> Forall (item_in C) (h1 ++ h2) -> forallb is_clean (h1 ++ h2) = true ->
-  exists j1 j2, (j1 <= j2)%nat /\ synced_to exec g C (run exec g h1) j1 /\ synced_to exec g C (run exec g (h1 ++ h2)) j2.
-Proof.
-  intros HV Hall Hcl. apply Forall_app in Hall as (Ha1 & Ha2).
-  rewrite forallb_app in Hcl. apply andb_true_iff in Hcl as (Hc1 & Hc2).
-  destruct (init_inv exec g k C HV) as (HI & Hl).
-  destruct (run_clean_inv exec g k C HV h1 (init g) O [] HI Ha1 Hc1) as (j1 & _ & HI1 & Hlog1).
-  { rewrite Hl. destruct C; reflexivity. }
-  destruct (run_clean_inv exec g k C HV h2 _ j1 [] HI1 Ha2 Hc2 Hlog1) as (j2 & Hle & HI2 & _).
-  exists j1, j2. split; [exact Hle|].
-  unfold run, run_from in *. rewrite fold_left_app.
-  destruct HI1 as (_ & Hk1 & _). destruct HI2 as (_ & Hk2 & _).
-  split; apply (synced_core exec g C); assumption.
-Qed.
-
-(* ---- C05: recovery under the guard, all chains, all histories with crashes anywhere else -------- *)
-Theorem recovery_partial exec g k C h :
-  ChainValid exec g k C -> Forall (item_in C) h -> no_bad_crash exec g (init g) h = true ->
-  recovered exec g C (run exec g h).
-Proof.
-  intros HV Hall Hg. destruct (init_inv exec g k C HV) as (HI & _).
-  destruct (run_inv exec g k C HV h (init g) O HI Hall Hg) as (j & Hst & Hcore & _).
-  split; [exact Hst|]. exists j. apply (synced_core exec g C). exact Hcore.
-Qed.
-
-(* ---- concrete chains for witnesses and non-vacuity examples ------------------------------------ *)
-Definition ex_exec : root -> N -> Z -> list tx -> root :=
-  fun r n _ txs => r * 7 + n + N.of_nat (length txs).
-Definition ex_g (initial : N) : config :=
-  {| g_chain := 1; g_initial := initial; g_time := 100%Z; g_proposer := Addr 1; g_initroot := 5 |}.
-(* what the proposer with key 1 builds from a list of (transactions, time) *)
-Fixpoint ex_build (prev : option header) (n : N) (r : root) (l : list (list tx * Z)) : list block :=
-  match l with
-  | [] => []
-  | (txs, t) :: l' =>
-      let h := {| h_height := n; h_time := t; h_chain := 1; h_last := prev; h_data := txs; h_app := r;
-                  h_proposer := Addr 1 |} in
-      ({| sh_hdr := h; sh_sig := Sig 1 h; sh_signer := {| sg_pub := Some (Pub 1); sg_addr := Addr 1 |} |},
-       {| d_meta := Some {| m_chain := 1; m_height := n; m_time := t |}; d_txs := txs |})
-      :: ex_build (Some h) (n + 1) (ex_exec r n t txs) l'
-  end.
-Definition ex_chain (initial : N) (l : list (list tx * Z)) : list block := ex_build None initial 5 l.
-Definition evh (C : list block) (i : nat) (da : N) : item :=
-  IEv (EvHeader (fst (nth i C (genesis_block (ex_g 1)))) da).
-Definition evd (C : list block) (i : nat) (da : N) : item :=
-  IEv (EvData (snd (nth i C (genesis_block (ex_g 1)))) da).
-
-Ltac solve_in := cbn; repeat (first [left; reflexivity | right]).
-Ltac chain_valid := split; [cbn; lia|split; [reflexivity|vm_compute; reflexivity]].
-
-(* F2: blocks 2 and 3 carry the same non-empty transaction list *)
-Definition f2_chain := ex_chain 1 [([], 100%Z); ([7], 101%Z); ([7], 102%Z)].
-Definition f2_hist := [evh f2_chain 0 1; evh f2_chain 1 1; evd f2_chain 1 1; evh f2_chain 2 1; evd f2_chain 2 1].
-
-Lemma complete_refuted :
-  exists exec g k C h m,
-    ChainValid exec g k C /\ Forall (item_in C) h /\ forallb is_clean h = true /\ (m <= length C)%nat /\
-    (forall i b, (i < m)%nat -> nth_error C i = Some b -> header_delivered h b) /\
-    (forall i b, (i < m)%nat -> nth_error C i = Some b -> d_txs (snd b) <> [] -> data_delivered h b) /\
-    d_height (n_disk (run exec g h)) < g_initial g + N.of_nat m - 1.
-Proof.
-  exists ex_exec, (ex_g 1), 1, f2_chain, f2_hist, 3%nat.
-  split; [chain_valid|].
-  split; [repeat constructor; cbn; eexists; solve_in|].
-  split; [reflexivity|]. split; [cbn; lia|].
-  split; [|split].
-  - intros i b Hi Hn. destruct i as [|[|[|i]]]; try lia; inversion Hn; subst; exists 1; solve_in.
-  - intros i b Hi Hn Hne. destruct i as [|[|[|i]]]; try lia; inversion Hn; subst.
-    + exfalso. (* block 0 is empty *) apply Hne. reflexivity.
-    + exists 1; solve_in.
-    + exists 1; solve_in.
-  - vm_compute. reflexivity.
-Qed.
-
-(* F7: the process dies after the state write of the first application, before the block save *)
-Definition f7_chain := ex_chain 1 [([], 100%Z)].
-Definition f7_hist := [ICrash (EvHeader (fst (nth 0 f7_chain (genesis_block (ex_g 1)))) 1) 1].
-
-Lemma recovery_refuted :
-  exists exec g k C h,
-    ChainValid exec g k C /\ Forall (item_in C) h /\ ~ recovered exec g C (run exec g h).
-Proof.
-  exists ex_exec, (ex_g 1), 1, f7_chain, f7_hist.
-  split; [chain_valid|].
-  split; [repeat constructor; cbn; eexists; solve_in|].
-  intros (_ & j & Hj & Hh & Hb & _).
-  destruct j as [|[|j]].
-  - vm_compute in Hh. discriminate Hh.
-  - specialize (Hb O ltac:(lia)). vm_compute in Hb. discriminate Hb.
-  - cbn in Hj. lia.
-Qed.
-
-(* the same history has a crash at write index 1: the guard of the partial theorem is what it violates *)
-Lemma recovery_refuted_guard : no_bad_crash ex_exec (ex_g 1) (init (ex_g 1)) f7_hist = false.
-Proof. vm_compute. reflexivity. Qed.
-
-(* stale cache files: header and data of block 2 are cached and marked seen, the node stops cleanly
-   (files written), then dies exactly between the applications of blocks 1 and 2; the new process loads
-   the old files, so every later copy of block 2's header and data is dropped as seen and nothing
-   ever calls trySyncNextBlock again *)
-Definition st_chain := ex_chain 1 [([], 100%Z); ([7], 101%Z)].
-Definition st_h1 := [evh st_chain 1 1; evd st_chain 1 1; IRestart;
-                     ICrash (EvHeader (fst (nth 0 st_chain (genesis_block (ex_g 1)))) 1) 3].
-Definition st_h2 := [evh st_chain 0 2; evd st_chain 0 2; evh st_chain 1 2; evd st_chain 1 2].
-
-Lemma resync_refuted :
-  exists exec g k C h1 h2,
-    ChainValid exec g k C /\ Forall (item_in C) (h1 ++ h2) /\
-    no_bad_crash exec g (init g) (h1 ++ h2) = true /\ forallb is_clean h2 = true /\
-    (forall b, In b C -> header_delivered h2 b /\ data_delivered h2 b) /\
-    d_height (n_disk (run exec g (h1 ++ h2))) < g_initial g + N.of_nat (length C) - 1.
-Proof.
-  exists ex_exec, (ex_g 1), 1, st_chain, st_h1, st_h2.
-  split; [chain_valid|].
-  split; [repeat constructor; cbn; try exact I; eexists; solve_in|].
-  split; [vm_compute; reflexivity|]. split; [reflexivity|].
-  split.
-  - intros b [E|[E|[]]]; subst; split; exists 2; solve_in.
-  - vm_compute. reflexivity.
-Qed.
